@@ -4,7 +4,7 @@ from __future__ import annotations
 import importlib
 
 OP_MODULES = ["contracts.c05", "contracts.c06", "contracts.c11", "contracts.c13", "contracts.c40", "contracts.c17", "contracts.c17q",
-              "contracts.c19", "contracts.c18"]
+              "contracts.c19", "contracts.c18", "contracts.c15"]
 MONITOR_MODULES = ["contracts.c26"]
 
 
@@ -74,6 +74,7 @@ def lockset_units(prop):
 FAMILIES = {
     "C19": ["op", "grouping"],
     "C18": ["op", "grouping", "toggle"],
+    "C15": ["op", "seqlemma"],
     "C36": ["timeconv"],
     "C38": ["marble"],
     "C41": ["bridge"],
